@@ -355,7 +355,7 @@ def observe(binary, universe, world, ops, flavour, known_args=(), want=None):
     return None, -1, "", th, None
 
 
-def minimise(binary, v, budget_s=60):
+def minimise(binary, v, budget_s=60, known_args=()):
     """ddmin over ops, then operand and fault-plan simplification; keeps the oracle id fixed."""
     t0 = time.time()
     want = v.expect()
@@ -364,7 +364,7 @@ def minimise(binary, v, budget_s=60):
 
     def fails(cand):
         tries[0] += 1
-        o, _, _, _, _ = observe(binary, v.universe, v.world, cand, v.flavour, want=want)
+        o, _, _, _, _ = observe(binary, v.universe, v.world, cand, v.flavour, known_args, want=want)
         return o == want
 
     if not ops or not fails(ops):
@@ -425,19 +425,19 @@ def minimise(binary, v, budget_s=60):
     return ops, tries[0], True
 
 
-def gate_and_minimise(binary, v, prop, replay_dir, budget_s=60):
+def gate_and_minimise(binary, v, prop, replay_dir, budget_s=60, known_args=()):
     """Returns (path, reproduced, info). A violation that does not reproduce is a machinery fault."""
     want = v.expect()
-    o1 = observe(binary, v.universe, v.world, v.ops, v.flavour, want=want)
-    o2 = observe(binary, v.universe, v.world, v.ops, v.flavour, want=want)
+    o1 = observe(binary, v.universe, v.world, v.ops, v.flavour, known_args, want=want)
+    o2 = observe(binary, v.universe, v.world, v.ops, v.flavour, known_args, want=want)
     if o1[0] != want or o2[0] != want or o1[3] != o2[3]:
         return None, False, "re-run gave %s / %s (trace hashes %s / %s), expected %s" % (
             o1[0], o2[0], o1[3][:8], o2[3][:8], want)
-    ops, tries, ok = minimise(binary, v, budget_s)
+    ops, tries, ok = minimise(binary, v, budget_s, known_args)
     mv = Violation()
     mv.__dict__.update(v.__dict__)
     mv.ops = ops
-    o3 = observe(binary, v.universe, v.world, ops, v.flavour, want=want)
+    o3 = observe(binary, v.universe, v.world, ops, v.flavour, known_args, want=want)
     if o3[0] != want:
         mv.ops = v.ops  # fall back to the unminimised history
         o3 = o1
